@@ -317,6 +317,9 @@ def write_replay(pid, seed, case, viol, minimised_from=None):
     os.makedirs(REPLAY_DIR, exist_ok=True)
     path = os.path.join(REPLAY_DIR, f'{pid}-{seed}.json')
     doc = {'property': pid, 'seed': seed, 'violation': viol, 'case': case}
+    if sys.flags.optimize:
+        # found by the slice that runs under `python -O`; replay does the same
+        doc['python_optimize'] = int(sys.flags.optimize)
     if minimised_from is not None:
         doc['minimised_from'] = minimised_from
     with open(path, 'w') as fp:
@@ -335,10 +338,17 @@ def check(pid, tier='quick', base_seed=0, workers=None, runs=None,
         budget['wall'] = wall
     workers = workers or min(16, os.cpu_count() or 1)
     chunk = chunk or budget.get('chunk', 25)
+    with_slice = not sys.flags.optimize and \
+        os.environ.get('VERIF_NO_OPT_SLICE') != '1'
+    full_wall = budget['wall']
+    if with_slice:
+        budget['wall'] = 0.8 * full_wall    # the rest is the -O slice's
     known = load_known()
     t0 = time.time()
     n = budget['runs']
-    seeds = [(i, run_seed(pid, base_seed, i)) for i in range(n)]
+    # the slice under `python -O` explores other cases than the main run
+    base = f'{base_seed}+O' if sys.flags.optimize else base_seed
+    seeds = [(i, run_seed(pid, base, i)) for i in range(n)]
     chunks = [seeds[i:i + chunk] for i in range(0, n, chunk)]
 
     agg = {'runs': 0, 'stats': {}, 'sigs': set(), 'cover': set(),
@@ -439,6 +449,25 @@ def check(pid, tier='quick', base_seed=0, workers=None, runs=None,
         # does not tear the pool down underneath its management thread
         pool.shutdown(wait=True, cancel_futures=True)
 
+    slice_viols = 0
+    if rc == 0 and harness_error is None and with_slice:
+        # interpreter configuration is part of the environment: a slice of
+        # the budget runs in an interpreter started with -O (assert
+        # statements compiled away)
+        src, sout, sruns = optimized_slice(
+            pid, tier, base_seed, max(chunk, n // 8),
+            max(30.0, 0.2 * full_wall), workers)
+        agg['stats']['optimized_interpreter_runs'] = sruns
+        if src == 1:
+            rc = 1
+            for line in sout.splitlines():
+                if line.startswith(('VIOLATION', '  tag=')):
+                    print(line, file=out)
+                    slice_viols += line.startswith('VIOLATION')
+        elif src != 0:
+            harness_error = 'optimized slice: ' + (
+                sout.strip().splitlines() or ['no output'])[-1][:300]
+
     for key, ent in sorted(known_hits.items()):
         print(f'KNOWN-FINDING: property={pid} {ent["finding"]["what"]} '
               f'[key={key}, hit {ent["n"]} times]', file=out)
@@ -450,16 +479,35 @@ def check(pid, tier='quick', base_seed=0, workers=None, runs=None,
 
     if write_evidence and harness_error is None:
         ev = build_evidence(mod, pid, tier, base_seed, agg, wall_s,
-                            len(new_viols), known_hits, timed_out, workers)
+                            len(new_viols) + slice_viols, known_hits,
+                            timed_out, workers)
         os.makedirs(EVIDENCE_DIR, exist_ok=True)
         with open(os.path.join(EVIDENCE_DIR, f'{pid}.json'), 'w') as fp:
             json.dump(ev, fp, indent=1, sort_keys=True, default=str)
     rate = agg['runs'] / wall_s * 3600 if wall_s > 0 else 0
     print(f'{pid} {tier}: runs={agg["runs"]} distinct={len(agg["sigs"])} '
-          f'violations={len(new_viols)} known={sum(e["n"] for e in known_hits.values())} '
+          f'violations={len(new_viols) + slice_viols} known={sum(e["n"] for e in known_hits.values())} '
           f'wall={wall_s:.1f}s ({rate:,.0f} runs/h){" [wall cap]" if timed_out else ""}',
           file=out)
     return rc
+
+
+def optimized_slice(pid, tier, base_seed, runs, wall, workers):
+    """Run part of the budget in `python -O`; returns (rc, output, runs)."""
+    import re
+    import subprocess
+    cli = os.path.join(os.path.dirname(os.path.abspath(__file__)), 'cli.py')
+    cmd = [sys.executable, '-O', '-B', cli, 'check', pid, '--tier', tier,
+           '--runs', str(runs), '--wall', str(wall), '--workers',
+           str(workers), '--seed', str(base_seed), '--no-evidence']
+    try:
+        r = subprocess.run(cmd, capture_output=True, text=True,
+                           timeout=wall + 1500)
+    except subprocess.TimeoutExpired:
+        return 2, 'optimized slice timed out', 0
+    m = re.search(r'runs=(\d+)', r.stdout)
+    return r.returncode, r.stdout + r.stderr[-500:], \
+        int(m.group(1)) if m else 0
 
 
 def build_evidence(mod, pid, tier, base_seed, agg, wall_s, nviol, known_hits,
